@@ -20,6 +20,7 @@ func init() {
 			c.ruleScanner("R-SCAN-NUMBER", scannerSpec{key: "internal/encoding/json.parseNumber", regex: jsonNumberRx, what: "JSON number (RFC 8259 §6)", usePrefix: true})
 			c.ruleJSONEscapes("R-JSON-ESCAPES")
 			c.ruleJSONFollow("R-JSON-FOLLOW")
+			c.ruleIndentJSONWhitespace("R-INDENT-JSON-WS")
 		},
 	})
 	register(&Property{
@@ -50,6 +51,7 @@ func init() {
 			c.ruleScanner("R-SCAN-DURATION", scannerSpec{key: "encoding/protojson.parseDuration", regex: jsonDurationRx, what: "Duration JSON string"})
 			c.ruleWKTRange("R-WKT-RANGE")
 			c.ruleWKTNoOverflow("R-WKT-NO-OVERFLOW")
+			c.ruleNullValueFirst("R-NULLVALUE-FIRST")
 			c.ruleFieldMaskReversible("R-FIELDMASK-REVERSIBLE")
 			c.ruleWKTTable("R-WKT-TABLE")
 		},
